@@ -243,7 +243,16 @@ class C04(Profile):
             return None
         if k == "newk":
             kw = {a: codec.dec(b) for a, b in op.get("kw", {}).items()}
-            kl = eqsig.Cluster([codec.dec(v) for v in op["values"]], op["dt"], **kw)
+            vals = []
+            for v in op["values"]:
+                if isinstance(v, dict) and "same" in v:
+                    vals.append(vals[v["same"]])         # the caller passes the very same array object twice
+                elif isinstance(v, dict) and "overlap" in v:
+                    b = vals[v["overlap"]]
+                    vals.append(b[v.get("off", 0):])      # ... or a window onto memory it has already passed
+                else:
+                    vals.append(codec.dec(v))
+            kl = eqsig.Cluster(vals, op["dt"], **kw)
             world.clusters[op["p"]] = kl
             names = []
             for i in range(kl.n_signals):
@@ -969,8 +978,13 @@ class OpGen(object):
             sh = ([base[0]] * lag + base[:n - lag]) if (lag and rng.random() < 0.7) else list(base)
             off = rng.uniform(-0.2, 0.2)
             vals.append(nd([round(v + off + rng.gauss(0, 0.01), 6) for v in sh]))
-        if rng.random() < 0.2:   # members of different length
+        c = rng.random()
+        if c < 0.2:   # members of different length
             vals[-1] = nd(vals[-1]["v"][: max(12, n - rng.randint(1, 8))])
+        elif c < 0.32:
+            vals[-1] = {"same": 0}
+        elif c < 0.4:
+            vals[-1] = {"overlap": 0, "off": rng.randint(0, 3)}
         st = rng.choice(["acc", "acc", "custom", "mixed"])
         if first_cls is not None:
             st = "acc" if first_cls == "AccSignal" else "custom"
